@@ -291,6 +291,96 @@ DK_TEXTS = ['METHOD=AES-128,URI="a"', 'METHOD=AES-128,URI="b"', 'METHOD=SAMPLE-A
             'METHOD=SAMPLE-AES,URI="a",KEYFORMAT="urn:uuid:edef8ba9-79d6-4ace-a3c8-27dcd51d21ed"', 'METHOD=SAMPLE-AES,URI="a",KEYFORMAT="com.microsoft.playready"']
 
 
+_BR = ["5", "5@0", "5@1", "5@5", "6", "6@0", "0", "0@0", "0@5", "4@1", "1@4"]
+_MEDIA_BASE = 'TYPE=AUDIO,GROUP-ID="g",NAME="n"'
+_DR = '#EXT-X-DATERANGE:ID="a"'
+NEAR_FAMILIES = {
+    "type:ByteRange": _BR,
+    "tag:ExtXByteRange": ["#EXT-X-BYTERANGE:" + x for x in _BR],
+    "tag:ExtXMap": ['#EXT-X-MAP:URI="u"', '#EXT-X-MAP:URI="v"', '#EXT-X-MAP:URI=""'] + ['#EXT-X-MAP:URI="u",BYTERANGE="%s"' % x for x in _BR[:8]],
+    "tag:ExtInf": ["#EXTINF:1,", "#EXTINF:1.0,", "#EXTINF:1,t", "#EXTINF:1,u", "#EXTINF:2,", "#EXTINF:1.000000001,", "#EXTINF:0,", "#EXTINF:0,t",
+                   "#EXTINF:0.999999999,", "#EXTINF:1, ", "#EXTINF:1,1"],
+    "type:Resolution": ["1x2", "2x1", "1x1", "2x2", "10x2", "1x20", "12x0", "1x2 "],
+    "type:Codecs": ["a", "a,b", "b,a", "a,a", "ab", "b", "a,b,c", "a,bc"],
+    "type:Channels": ["6", "2", "16", "0", "1"],
+    "type:ClosedCaptions": ["NONE", '"NONE"', '"a"', '"b"', '""'],
+    "type:KeyFormat": ['"identity"', '"Identity"', '"x"', '"y"', '""', '"com.apple.streamingkeydelivery"', '"com.microsoft.playready"',
+                       '"urn:uuid:edef8ba9-79d6-4ace-a3c8-27dcd51d21ed"', '"URN:UUID:EDEF8BA9-79D6-4ACE-A3C8-27DCD51D21ED"'],
+    "type:InitializationVector": ["0x" + "00" * 16, "0x" + "00" * 15 + "01", "0x01" + "00" * 15, "0x" + "ff" * 16, "0X" + "FF" * 16, "0x" + "0f" * 16],
+    "type:HdcpLevel": ["TYPE-0", "NONE"], "type:EncryptionMethod": ["AES-128", "SAMPLE-AES"],
+    "type:MediaType": ["AUDIO", "VIDEO", "SUBTITLES", "CLOSED-CAPTIONS"], "type:PlaylistType": ["#EXT-X-PLAYLIST-TYPE:VOD", "#EXT-X-PLAYLIST-TYPE:EVENT"],
+    "type:InStreamId": ["CC1", "CC2", "CC4", "SERVICE1", "SERVICE2", "SERVICE10", "SERVICE63"],
+    "type:ProtocolVersion": ["1", "2", "3", "4", "5", "6", "7"],
+    "type:StreamData": ["BANDWIDTH=1", "BANDWIDTH=2", "BANDWIDTH=0", "BANDWIDTH=1,AVERAGE-BANDWIDTH=0", "BANDWIDTH=1,AVERAGE-BANDWIDTH=1", 'BANDWIDTH=1,CODECS="a"',
+                        'BANDWIDTH=1,CODECS=""', "BANDWIDTH=1,RESOLUTION=1x2", "BANDWIDTH=1,RESOLUTION=2x1", "BANDWIDTH=1,HDCP-LEVEL=NONE", "BANDWIDTH=1,HDCP-LEVEL=TYPE-0",
+                        'BANDWIDTH=1,VIDEO="v"', 'BANDWIDTH=1,VIDEO=""', "BANDWIDTH=0,AVERAGE-BANDWIDTH=1"],
+    "tag:ExtXMedia": ["#EXT-X-MEDIA:" + x for x in [
+        _MEDIA_BASE, _MEDIA_BASE + ",DEFAULT=YES,AUTOSELECT=YES", _MEDIA_BASE + ",DEFAULT=NO", _MEDIA_BASE + ",AUTOSELECT=YES", _MEDIA_BASE + ",FORCED=NO",
+        _MEDIA_BASE + ',LANGUAGE="en"', _MEDIA_BASE + ',LANGUAGE=""', _MEDIA_BASE + ',ASSOC-LANGUAGE="en"', _MEDIA_BASE + ',ASSOC-LANGUAGE=""',
+        _MEDIA_BASE + ',CHARACTERISTICS="en"', _MEDIA_BASE + ',CHANNELS="2"', _MEDIA_BASE + ',CHANNELS="6"', _MEDIA_BASE + ',URI="u"', _MEDIA_BASE + ',URI=""',
+        'TYPE=VIDEO,GROUP-ID="g",NAME="n"', 'TYPE=AUDIO,GROUP-ID="n",NAME="g"', 'TYPE=AUDIO,GROUP-ID="g",NAME="m"',
+        'TYPE=CLOSED-CAPTIONS,GROUP-ID="g",NAME="n",INSTREAM-ID="CC1"', 'TYPE=CLOSED-CAPTIONS,GROUP-ID="g",NAME="n",INSTREAM-ID="CC2"',
+        'TYPE=SUBTITLES,GROUP-ID="g",NAME="n",URI="u"', 'TYPE=SUBTITLES,GROUP-ID="g",NAME="n",URI="u",FORCED=YES']],
+    "tag:ExtXDateRange": [_DR, '#EXT-X-DATERANGE:ID="b"', _DR + ',CLASS="c"', _DR + ',CLASS=""', _DR + ',START-DATE="2010-02-19T14:54:23.031+08:00"',
+                          _DR + ',END-DATE="2010-02-19T14:54:23.031+08:00"', _DR + ",DURATION=1", _DR + ",DURATION=0", _DR + ",PLANNED-DURATION=1",
+                          _DR + ",PLANNED-DURATION=0", _DR + ",DURATION=1,PLANNED-DURATION=1", _DR + ",DURATION=1,PLANNED-DURATION=2",
+                          _DR + ",DURATION=2,PLANNED-DURATION=1", _DR + ",SCTE35-CMD=0xAB", _DR + ",SCTE35-OUT=0xAB", _DR + ",SCTE35-IN=0xAB",
+                          _DR + ',X-A="s"', _DR + ",X-A=0xAB", _DR + ",X-A=1", _DR + ',X-A="1"', _DR + ',X-B="s"', _DR + ',X-A="s",X-B="s"',
+                          _DR + ',CLASS="c",END-ON-NEXT=YES', _DR + ',CLASS="c",END-ON-NEXT=NO'],
+    "tag:ExtXSessionData": ["#EXT-X-SESSION-DATA:" + x for x in ['DATA-ID="d",VALUE="v"', 'DATA-ID="d",VALUE="w"', 'DATA-ID="d",URI="v"', 'DATA-ID="d",VALUE=""',
+                            'DATA-ID="d",URI=""', 'DATA-ID="d",VALUE="v",LANGUAGE="en"', 'DATA-ID="d",VALUE="v",LANGUAGE=""', 'DATA-ID="e",VALUE="v"',
+                            'DATA-ID="v",VALUE="d"', 'DATA-ID="d",URI="v",LANGUAGE="en"']],
+    "tag:ExtXSessionKey": ['#EXT-X-SESSION-KEY:METHOD=AES-128,URI="k"', '#EXT-X-SESSION-KEY:METHOD=SAMPLE-AES,URI="k"', '#EXT-X-SESSION-KEY:METHOD=AES-128,URI="l"',
+                           '#EXT-X-SESSION-KEY:METHOD=AES-128,URI="k",IV=0x' + "00" * 16, '#EXT-X-SESSION-KEY:METHOD=AES-128,URI="k",KEYFORMAT="identity"',
+                           '#EXT-X-SESSION-KEY:METHOD=AES-128,URI="k",KEYFORMATVERSIONS="1"', '#EXT-X-SESSION-KEY:METHOD=AES-128,URI="k",KEYFORMATVERSIONS="2"',
+                           '#EXT-X-SESSION-KEY:METHOD=AES-128,URI="k",KEYFORMAT="x"'],
+    "tag:ExtXProgramDateTime": ["#EXT-X-PROGRAM-DATE-TIME:2010-02-19T14:54:23.031+08:00", "#EXT-X-PROGRAM-DATE-TIME:2010-02-19T14:54:23.032+08:00",
+                                "#EXT-X-PROGRAM-DATE-TIME:2010-02-19T06:54:23.031Z", "#EXT-X-PROGRAM-DATE-TIME:x"],
+    "tag:ExtXVersion": ["#EXT-X-VERSION:%d" % i for i in range(1, 8)],
+}
+
+
+def _near_media():
+    head = "#EXTM3U\n#EXT-X-TARGETDURATION:10\n"
+    first = "#EXT-X-BYTERANGE:100@0\n#EXTINF:1,\na.ts\n"
+    out = []
+    for second in ["#EXT-X-BYTERANGE:100\n", "#EXT-X-BYTERANGE:100@100\n", "#EXT-X-BYTERANGE:100@0\n", "#EXT-X-BYTERANGE:50@100\n", "#EXT-X-BYTERANGE:0@100\n", "",
+                   "#EXT-X-DISCONTINUITY\n", '#EXT-X-MAP:URI="i"\n', '#EXT-X-MAP:URI="i",BYTERANGE="5@0"\n', '#EXT-X-MAP:URI="i",BYTERANGE="5"\n',
+                   "#EXT-X-PROGRAM-DATE-TIME:2010-02-19T14:54:23.031+08:00\n", '#EXT-X-DATERANGE:ID="a"\n', '#EXT-X-KEY:METHOD=AES-128,URI="k"\n',
+                   '#EXT-X-KEY:METHOD=AES-128,URI="k",IV=0x' + "00" * 15 + "01\n", "#EXT-X-KEY:METHOD=NONE\n"]:
+        out.append(head + first + second + "#EXTINF:1,\na.ts\n")
+    out.append(head + first + "#EXTINF:1,t\na.ts\n")
+    out.append(head + first + "#EXTINF:1.5,\na.ts\n")
+    out.append(head + first + "#EXTINF:1,\nb.ts\n")
+    out.append(head + first)
+    out.append(head + "#EXT-X-MEDIA-SEQUENCE:1\n" + first)
+    out.append(head + "#EXT-X-MEDIA-SEQUENCE:0\n" + first)
+    out.append(head + "#EXT-X-DISCONTINUITY-SEQUENCE:1\n" + first)
+    out.append(head + "#EXT-X-PLAYLIST-TYPE:VOD\n" + first)
+    out.append(head + "#EXT-X-PLAYLIST-TYPE:EVENT\n" + first)
+    out.append(head + "#EXT-X-I-FRAMES-ONLY\n" + first)
+    out.append(head + "#EXT-X-INDEPENDENT-SEGMENTS\n" + first)
+    out.append(head + "#EXT-X-START:TIME-OFFSET=0\n" + first)
+    out.append(head + first + "#EXT-X-ENDLIST\n")
+    out.append(head + "#EXT-X-FOO\n" + first)
+    out.append("#EXTM3U\n#EXT-X-TARGETDURATION:11\n" + first)
+    return out
+
+
+def _near_master():
+    m = '#EXT-X-MEDIA:TYPE=AUDIO,GROUP-ID="g",NAME="n"\n'
+    v = '#EXT-X-STREAM-INF:BANDWIDTH=1,AUDIO="g"\nu\n'
+    h = "#EXTM3U\n"
+    return [h + m + v, h + m + v + v, h + m + '#EXT-X-STREAM-INF:BANDWIDTH=1\nu\n', h + m + '#EXT-X-STREAM-INF:BANDWIDTH=1,AUDIO="g"\nw\n',
+            h + m + m.replace('"n"', '"m"') + v, h + m + v + "#EXT-X-INDEPENDENT-SEGMENTS\n", h + m + v + "#EXT-X-START:TIME-OFFSET=0\n",
+            h + m + v + '#EXT-X-SESSION-DATA:DATA-ID="d",VALUE="v"\n', h + m + v + '#EXT-X-SESSION-KEY:METHOD=AES-128,URI="k"\n',
+            h + m + v + '#EXT-X-I-FRAME-STREAM-INF:BANDWIDTH=1,URI="u"\n', h + m + v + "#EXT-X-FOO\n", h + m, h + v.replace(',AUDIO="g"', ""), h]
+
+
+NEAR_MEDIA = _near_media()
+NEAR_MASTER = _near_master()
+
+
 def c19_build(ctx):
     cases = []
     for a, b in itertools.product(KFV_SCRIPTS, repeat=2):
@@ -330,6 +420,15 @@ def c19_build(ctx):
           '#EXT-X-STREAM-INF:BANDWIDTH=1,CLOSED-CAPTIONS=NONE\nu', '#EXT-X-STREAM-INF:BANDWIDTH=1,CLOSED-CAPTIONS="NONE"\nu', '#EXT-X-STREAM-INF:BANDWIDTH=1,CODECS="a,b"\nu']
     for a, b in itertools.product(vs, repeat=2):
         cases.append(mk("cmp:tag:VariantStream", a, C.hx(b), group="VariantStream", meta={"a": a, "b": b}))
+    # families of values one field apart (an absent field next to its zero / default / empty value, neighbouring values,
+    # the same content in another field): a hand-written comparison that folds two of them together shows up here
+    for kind, texts in NEAR_FAMILIES.items():
+        for a, b in itertools.product(texts, repeat=2):
+            cases.append(mk("cmp:" + kind, a, C.hx(b), group="near:" + kind.split(":")[1], meta={"a": a, "b": b}))
+    for a, b in itertools.product(NEAR_MEDIA, repeat=2):
+        cases.append(mk("cmp:media", a, C.hx(b), group="near:media", meta={"a": a, "b": b}))
+    for a, b in itertools.product(NEAR_MASTER, repeat=2):
+        cases.append(mk("cmp:master", a, C.hx(b), group="near:master", meta={"a": a, "b": b}))
     return cases
 
 
@@ -1749,6 +1848,41 @@ DEFECT_WITNESSES = [
 ]
 
 
+def c05_long_values(rng, rounds):
+    """well-formed tags whose quoted strings, titles and URIs are long runs of multi-byte characters behind 0-3 ASCII bytes (every
+    alignment of a fixed byte cut falls inside a character for most of them), alone, in a playlist of their own kind and in a
+    playlist of the other kind: the paths that quote the input back (error values, Display of what was parsed) see them"""
+    cases = []
+    lines = [(n, t) for n, ts in TAG_SEEDS.items() for t in ts]
+    lines += [("ExtXKey", '#EXT-X-KEY:METHOD=SAMPLE-AES,URI="k",KEYFORMAT="f",KEYFORMATVERSIONS="1"'), ("ExtXSessionData", '#EXT-X-SESSION-DATA:DATA-ID="d",URI="u"'),
+              ("ExtXMedia", '#EXT-X-MEDIA:TYPE=SUBTITLES,URI="u",GROUP-ID="g",NAME="n",FORCED=YES'), (None, "#EXT-X-UNKNOWN:x"), (None, "# c"), (None, "u")]
+    chars = ["\u00e9", "\u20ac", "\U0001F600", "\u65e5\u00e9"]
+    for _ in range(rounds):
+        for name, line in lines:
+            spots = [m.span(1) for m in re.finditer(r'"([^"\n]*)"', line)]
+            if line.startswith("#EXTINF"):
+                spots.append((line.index(",") + 1, len(line)))
+            if "\n" in line:
+                spots.append((line.index("\n") + 1, len(line)))
+            if name is None:
+                spots.append((len(line) - 1, len(line)))
+            for (a, b) in spots:
+                ch = rng.choice(chars)
+                k = rng.randint(0, 3)
+                total = rng.choice([40, 130, 300, 1200])
+                v = "a" * k + ch * (total // len(ch.encode()) + 1)
+                t = line[:a] + v + line[b:]
+                if name is not None:
+                    cases.append(mk("tag:" + name, t, group="long-values:tag"))
+                med = "#EXTM3U\n#EXT-X-TARGETDURATION:10\n" + t + ("\n" if name is None and not t.startswith("#") else "\n#EXTINF:1,\ns.ts\n")
+                if name is None and not t.startswith("#"):
+                    med = "#EXTM3U\n#EXT-X-TARGETDURATION:10\n#EXTINF:1,\n" + t + "\n"
+                cases.append(mk(rng.choice(["rt_media", "media_fromstr"]), med, group="long-values:in-media"))
+                cases.append(mk("media_builder", med, "-", group="long-values:in-media"))
+                cases.append(mk("rt_master", "#EXTM3U\n" + t + "\n", group="long-values:in-master"))
+    return cases
+
+
 def c05_build(ctx):
     rng = ctx.rng
     cases = []
@@ -1813,6 +1947,7 @@ def c05_build(ctx):
     for tok in G.BAD_TOKENS:
         for name in TYPE_OPS:
             cases.append(mk("type:" + name, tok, group="bad-token"))
+    cases += c05_long_values(rng, ctx.n(8, 40))
     return cases
 
 
@@ -2423,6 +2558,18 @@ def c18_build(ctx):
         cases.append(mk("type:StreamData", lay.attrs(sd), group="tag-generated", meta={"domain": True}))
         cases.append(mk("tag:VariantStream", "#EXT-X-STREAM-INF:" + lay.attrs(sd + ([("FRAME-RATE", "%d.%03d" % (rng.randint(0, 240), rng.randint(0, 999)))] if rng.random() < 0.5 else [])) + "\nuri.m3u8", group="tag-generated", meta={"domain": True}))
         cases.append(mk("tag:VariantStream", "#EXT-X-I-FRAME-STREAM-INF:" + lay.attrs(sd + [("URI", '"u"')]), group="tag-generated", meta={"domain": True}))
+    # values that only a constructor reaches (the text parser would type their text differently if it looked at it the wrong way):
+    # the property is about every value, so these must survive write -> parse too
+    hx = lambda t: t.encode().hex()
+    for sv in ["2024", "1.5", "-3", "+7", ".5", "1e3", "007", "0x1F", "0XAB", "inf", "NaN", "", "YES", "NO", "a,b", "a=b", " 1", "1 ", "0x", "\u00e9", "1.5.2", "-"]:
+        cases.append(mk("build_tag:ExtXDateRange", "id=69 attr=582d41:S" + hx(sv), group="built:client-string", meta={"domain": True}))
+        cases.append(mk("build_tag:ExtXDateRange", "id=" + hx(sv if sv else "i") + " class=" + hx(sv), group="built:strings", meta={"domain": True}))
+        cases.append(mk("build_tag:ExtXSessionData", "id=" + hx(sv if sv else "i") + " value=" + hx(sv) + " lang=" + hx(sv), group="built:strings", meta={"domain": True}))
+    for hv in ["00", "ab", "0102ff", "00" * 40]:
+        cases.append(mk("build_tag:ExtXDateRange", "id=69 attr=582d41:H" + hv, group="built:client-hex", meta={"domain": True}))
+    for f in [x for x in G.KEYFORMATS if x] + G.KEYFORMATS_LOOKALIKE + ["a,b", "a=b", "1", "NONE"]:
+        cases.append(mk("build_tag:DecryptionKey", "method=aes uri=6b format=" + hx(f), group="built:key-format", meta={"domain": True, "kfv1": True}))
+        cases.append(mk("build_tag:DecryptionKey", "method=saes uri=" + hx(f) + " format=" + hx(f) + " versions=1/2", group="built:key-format", meta={"domain": True, "kfv1": True}))
     return cases
 
 
@@ -3495,7 +3642,10 @@ def c01_build(ctx):
             cases.append(mk("media", t, group="corpus"))
     for _ in range(ctx.n(5000, 100000)):
         a = FA.gen_media_ast(rng, ctx.features)
-        cases.append(mk("media", FA.render_media(rng, a), group="abstract", meta={"ast": a}))
+        # "parsed" is any of the three entry points: TryFrom<&str>, FromStr (parse + into_owned), a default builder's parse()
+        x = rng.random()
+        op, args = ("media", []) if x < 0.6 else ("media_fromstr", []) if x < 0.85 else ("media_builder", ["-"])
+        cases.append(mk(op, FA.render_media(rng, a), *args, group="abstract", meta={"ast": a}))
     for _ in range(ctx.n(300, 6000)):
         a = FA.gen_media_ast(rng, ctx.features, k1=True)
         cases.append(mk("media", FA.render_media(rng, a), group="independent-segments-mixed-methods", meta={"ast": a, "k1": True}))
